@@ -63,8 +63,8 @@ PROPS["C11"] = dict(
 
 PROPS["C16"] = dict(
     modules=["Hub.Props.C16"],
-    gens=["c16", "c16p"],
-    rule="(a) the real doAclCheck over 7 methods x 7 paths x all ACL lists of size <=1 and a stride of size 2 (thorough: all of size 2 plus sampled size 3) "
+    gens=["c16", "c16p", "c16seq"],
+    rule="(c16.seq) sequences of 4-11 requests by ONE client through the complete router (every registered method of two protected paths, in random order, with repeats), the ACL set once and sometimes replaced or deleted in the middle: each request must be decided as if it were the first (no grant remembered across methods, paths or ACL changes); (a) the real doAclCheck over 7 methods x 7 paths x all ACL lists of size <=1 and a stride of size 2 (thorough: all of size 2 plus sampled size 3) "
          "drawn from 9 resources x {read,write} x {allow,deny}; (b) every (method,route) of the registered echo router (path parameters "
          "instantiated) x 11 token kinds (absent, malformed, expired, wrong key, wrong issuer, wrong audience, RS384, HS256 signed with the public key, "
          "alg none, admin, client) x 6 ACL shapes for the client token, served in-process through all middlewares; non-trivial = non-admin with a "
